@@ -458,6 +458,12 @@ def h_resubmit(shapes=("chain3", "fork3"), bss=(2,), flagsets=None, incomplete=T
                 state = run_to_quiescence(ex, w, out, lambda n: 0, "f%d_" % attempt)
                 if state != "complete":
                     return False, "submission cannot be completed: " + state
+                listed = [r_.name for r_ in ResultsSummary(out).list_results()]
+                rows_ = w.result_names(out)
+                # every completion reached through the documented commands must again hold one entry per job
+                ex.check(len(listed) == len(set(listed)) and len(rows_) == len(set(rows_)),
+                         "C13: after a failed resubmit-jobs the completed submission holds two result entries for one job",
+                         results=sorted(listed), rows=sorted(rows_), attempt=attempt, **info)
                 res = {r_.name: r_ for r_ in ResultsSummary(out).list_results()}
                 if attempt > 0 and all(n in res and res[n].is_successful() for n in nm):
                     return True, ""
